@@ -95,6 +95,8 @@ def main():
     d.add_argument("count", type=int)
     d.add_argument("--seed", type=int, default=20261002)
     d.set_defaults(fn=cmd_digest)
+    z = sub.add_parser("zygote")
+    z.set_defaults(fn=lambda a: __import__("pss.procs", fromlist=["x"]).zygote_main())
     s = sub.add_parser("selftest")
     s.add_argument("--count", type=int, default=24)
     s.set_defaults(fn=cmd_selftest)
